@@ -22,8 +22,8 @@ ASSUMPTIONS = ["restore_cpgraph always extracts under /tmp; the extracted direct
                "breakdown frames are compared up to row order and dtype"]
 FLOAT_KEYS = ["files"]          # fractional-time-unit workload class (hv/shard.py)
 PLAN = {"quick": {"shards": 16, "cases": 192, "timeout": 900}, "thorough": {"shards": 16, "cases": 2000, "timeout": 3400}}
-FLOORS = {"quick": {"distinct_nontrivial": 60, "cycles": 250, "graphs": 120, "clamped_edge_graphs": 8, "breakdowns_compared": 250, "graphs_with_csv_hostile_names": 30, "batch_restores": 60},
-          "thorough": {"distinct_nontrivial": 900, "cycles": 4000, "graphs": 1900, "clamped_edge_graphs": 150, "breakdowns_compared": 4000, "graphs_with_csv_hostile_names": 500, "batch_restores": 900}}
+FLOORS = {"quick": {"distinct_nontrivial": 60, "cycles": 250, "graphs": 120, "clamped_edge_graphs": 8, "breakdowns_compared": 250, "graphs_with_csv_hostile_names": 30, "batch_restores": 60, "graphs_with_two_equal_weight_maximum_paths": 30},
+          "thorough": {"distinct_nontrivial": 900, "cycles": 4000, "graphs": 1900, "clamped_edge_graphs": 150, "breakdowns_compared": 4000, "graphs_with_csv_hostile_names": 500, "batch_restores": 900, "graphs_with_two_equal_weight_maximum_paths": 400}}
 
 
 ODD_NAMES = ["<forward>", "<lambda>", "(anonymous)", "None", "null", "nan", "NA", "N/A", "", "1e5", "0012", "True", " padded "]
@@ -34,6 +34,9 @@ def gen_case(rnd, tier: str, i: Any) -> Dict[str, Any]:
     if rnd.random() < 0.35:
         # operator names that shorten to the empty string or read like a missing value once written to CSV
         over["ops_pool"] = rnd.sample(gen_sim.OPS, 3) + rnd.sample(ODD_NAMES, 3)
+    if rnd.random() < 0.5:
+        # small equal durations on several streams: several equal-weight maximum paths (the restored path must still be the saved one)
+        over.update(tight=True, n_streams=rnd.choice([2, 3, 4]))
     c = cpdrv.gen_case(rnd, tier, i, annotation_nest=rnd.random() < 0.6, **over)
     c["odd_names"] = bool(over)
     c["cycles"] = rnd.choice([1, 2, 3])
@@ -93,6 +96,30 @@ def _cleanup_extracted(out_dir: str) -> None:
         q = os.path.dirname(q)
 
 
+def _make_tie(g, rnd) -> bool:  # noqa: ANN001
+    """Re-weight one edge so that a second path into a node of the critical path weighs exactly as much as the path's own."""
+    import networkx as nx
+
+    dist = {}
+    for n in nx.topological_sort(g):
+        dist[n] = max([dist[u] + g.edges[u, n]["weight"] for u in g.pred[n]] or [0])
+    path = list(g.critical_path_nodes)
+    cands = []
+    for p_, v in zip(path, path[1:]):
+        for q in g.pred[v]:
+            if q != p_:
+                w = dist[p_] + g.edges[p_, v]["weight"] - dist[q]
+                if w >= 0:
+                    cands.append((q, v, w))                 # the other way in becomes as heavy as the path's
+                elif q not in path:
+                    cands.append((p_, v, g.edges[p_, v]["weight"] - w + g.edges[q, v]["weight"]))   # or the path's edge as heavy as the other way in
+    if not cands:
+        return False
+    q, v, w = rnd.choice(cands)
+    g.edges[q, v]["weight"] = w
+    return True
+
+
 def _compare(res, ctag, rg, snap, rows0) -> None:  # noqa: ANN001
     s2 = _snapshot(rg)
     for key, what in (("nodes", "node set"), ("node_list", "node_list"), ("e2e", "edge_to_event_map"), ("start", "event_to_start_node_map"),
@@ -131,6 +158,14 @@ def run_case(case: Dict[str, Any], ctx: Any) -> core.CaseResult:
             res.counters["graphs_with_csv_hostile_names"] += 1
         if any(d["weight"] != d["object"].weight for _, _, d in g.edges(data=True)):
             res.counters["clamped_edge_graphs"] += 1
+        if core.rng("c19tie", case["win_seed"], A.annotation, str(A.instance)).random() < 0.5:
+            # a what-if that makes two ways into a node of the critical path exactly equally heavy: which of them is "the" critical
+            # path is decided once, by critical_path(); a restored graph must report that very path
+            if _make_tie(g, core.rng("c19tie2", case["win_seed"], A.annotation)):
+                okw, r = drv.guard(res, "critical_path (tie what-if)", g.critical_path)
+                if not okw or r is not True:
+                    continue
+                res.counters["graphs_with_two_equal_weight_maximum_paths"] += 1
         ok, bd0 = drv.guard(res, "get_critical_path_breakdown (original)", g.get_critical_path_breakdown)
         if not ok:
             continue
